@@ -30,6 +30,12 @@ def oracle_lockfam(run):
     val = 0
     cur = {}           # tid -> current op text
     seen = {}
+    brk = {}           # tid -> index into seen[tid] at which the current critical section began
+    pre = {}           # tid -> register value immediately before the op's (last) write
+    reg_rev = 0        # identity tag (vpay::Pay::rev) of the value in the register
+    pre_rev = {}       # tid -> tag of the value the op's (last) write replaced
+    read_rev = {}      # tid -> tag of the register at the op's last read
+    res_rev = {}       # tid -> tag of the value the op handed back
     for tid, t in events(run):
         k = t[0]
         if k == "cfg":
@@ -44,6 +50,9 @@ def oracle_lockfam(run):
             acq[tid] = 0
             rel[tid] = 0
             seen[tid] = []
+            brk[tid] = 0
+            pre[tid] = None
+            pre_rev[tid] = read_rev[tid] = res_rev[tid] = None
         elif k in ("mlk", "slk", "mtl", "mtf", "stl", "stf"):
             ok = True if k in ("mlk", "slk") else t[2] == "1"
             if enabled and capable and want_shared.get(tid) and k[0] == "m":
@@ -68,6 +77,7 @@ def oracle_lockfam(run):
                         return "mutex granted to %d (%s) while %d holds %s" % (tid, m, u, mu)
                 mode[tid] = m
                 acq[tid] = acq.get(tid, 0) + 1
+                brk[tid] = len(seen.get(tid, []))     # accesses of the op made before this critical section
         elif k in ("mul", "sul"):
             if not mode.get(tid):
                 return "thread %d released a mutex it does not hold" % tid
@@ -102,22 +112,50 @@ def oracle_lockfam(run):
             if k == "prd" and v != val:
                 return "thread %d read %d, last written value is %d" % (tid, v, val)
             if k == "pwr":
-                # C15: a read-modify-write operation (exchange, compare_exchange, modify) is ONE atomic step: the register
-                # must still hold the value the operation read when it writes
+                # C15: a read-modify-write operation (exchange, compare_exchange, modify) is ONE atomic step: the value it
+                # replaces must have been read in the SAME critical section as the write (a re-read after a failed attempt
+                # is fine; a write that rests on a read made under an earlier acquisition is not: another thread's write in
+                # between would be lost).  Stated on values and critical sections only, not on how the operation is coded.
                 opn = cur.get(tid, "").split("!")[0].split("=")[0]
-                reads = [x for kk, x in seen.get(tid, []) if kk == "prd"]
-                if opn in ("xc", "ce", "md", "mv") and reads and reads[0] != val:
-                    return ("%s by thread %d read %d but the register held %d when it wrote %d: the operation is not atomic "
-                            "(another thread's write in between is lost)" % (cur.get(tid), tid, reads[0], val, v))
+                mine = seen.get(tid, [])
+                here = [x for kk, x in mine[brk.get(tid, 0):] if kk == "prd"]
+                earlier = [x for kk, x in mine[:brk.get(tid, 0)] if kk == "prd"]
+                if opn in ("xc", "ce", "md", "mv") and not here and earlier:
+                    return ("%s by thread %d read %d under an earlier acquisition of the lock and wrote %d under a later one "
+                            "without re-reading (the register holds %d now): the operation is not atomic (another thread's write "
+                            "in between is lost)" % (cur.get(tid), tid, earlier[-1], v, val))
+                pre[tid] = val
+                pre_rev[tid] = reg_rev
                 val = v
+            if k == "prd":
+                read_rev[tid] = reg_rev
             seen.setdefault(tid, []).append((k, v))
+        elif k == "prv" and enabled:
+            if mode.get(tid) != "X":
+                return "thread %d replaced the wrapped object without holding the lock exclusively" % tid
+            reg_rev = int(t[2])
+        elif k == "rrv":
+            res_rev[tid] = int(t[1])
         elif k in ("ret", "exc"):
+            if k == "ret" and enabled and res_rev.get(tid) is not None:
+                # C15 on identities: values that compare equal need not be the same value (T::operator== may be coarser
+                # than identity); an operation must hand back THE value that was in the register at its atomic step
+                opn = cur.get(tid, "").split("!")[0].split("=")[0]
+                if opn == "xc" and pre_rev.get(tid) is not None and res_rev[tid] != pre_rev[tid]:
+                    return ("%s by thread %d handed back value #%d but the value it replaced was #%d (equal, not identical): "
+                            "another thread's store in between was overwritten without being observed — no order of the "
+                            "operations explains the results" % (cur.get(tid), tid, res_rev[tid], pre_rev[tid]))
+                if opn in ("ld", "cv") and read_rev.get(tid) is not None and res_rev[tid] != read_rev[tid]:
+                    return "%s by thread %d handed back value #%d but read #%d" % (cur.get(tid), tid, res_rev[tid], read_rev[tid])
+                if opn == "ce" and len(t) > 3 and t[2] == "0" and read_rev.get(tid) is not None and res_rev[tid] != read_rev[tid]:
+                    return ("%s by thread %d failed and reports value #%d as current but read #%d"
+                            % (cur.get(tid), tid, res_rev[tid], read_rev[tid]))
             if mode.get(tid):
                 return "thread %d returned from %s still holding the lock" % (tid, cur.get(tid))
             if acq.get(tid, 0) != rel.get(tid, 0):
                 return "op %s: %d acquisitions, %d releases" % (cur.get(tid), acq.get(tid, 0), rel.get(tid, 0))
             if k == "ret" and enabled:
-                why = _register_check(cur.get(tid, ""), t[2:], seen.get(tid, []))
+                why = _register_check(cur.get(tid, ""), t[2:], seen.get(tid, []), pre.get(tid))
                 if why:
                     return why
         elif k == "final" and enabled:
@@ -128,7 +166,7 @@ def oracle_lockfam(run):
     return None
 
 
-def _register_check(op, res, acc):
+def _register_check(op, res, acc, pre=None):
     body = op.split("!")[0]
     name, _, arg = body.partition("=")
     reads = [v for k, v in acc if k == "prd"]
@@ -144,19 +182,22 @@ def _register_check(op, res, acc):
         if writes != [int(arg)]:
             return "%s wrote %s" % (op, writes)
     elif name == "xc":
-        if not reads or writes != [int(arg)] or not res or int(res[0]) != reads[0]:
-            return "%s returned %s, read %s, wrote %s" % (op, res, reads, writes)
+        # exchange(a): one write of a; the result is the value the register held immediately before that write
+        if writes != [int(arg)] or not res or pre is None or int(res[0]) != pre:
+            return "%s returned %s but replaced %s (read %s, wrote %s)" % (op, res, pre, reads, writes)
     elif name == "ce":
         e, d = [int(x) for x in arg.split("/")]
         if not reads or len(res) < 2:
             return "%s: no read / result" % op
-        cur = reads[0]
-        if cur == e:
-            if res[0] != "1" or writes != [d]:
-                return "%s: current %d == expected but result %s, wrote %s" % (op, cur, res, writes)
+        if res[0] == "1":
+            # success: exactly one write of desired, and the value it replaced equals expected
+            if writes != [d] or pre != e:
+                return "%s: reported success but replaced %s, wrote %s" % (op, pre, writes)
         else:
-            if res[0] != "0" or writes or int(res[1]) != cur:
-                return "%s: current %d != expected but result %s, wrote %s" % (op, cur, res, writes)
+            # failure: nothing written; expected now holds a value the register had during the call, different from the
+            # original expected (a call that finds the register equal to expected must succeed)
+            if writes or int(res[1]) not in reads or int(res[1]) == e:
+                return "%s: reported failure with expected=%s, read %s, wrote %s" % (op, res[1], reads, writes)
     return None
 
 
